@@ -519,15 +519,25 @@ def run_check(check, tier, master_seed, runs=None, budget_s=None, quiet=False):
         if rp:
             with open(os.path.join(VERIF_DIR, rp)) as fp:
                 rep = json.load(fp)
-            res = execute_case(check, rep['case'])
-            if res.get('harness'):
-                batch.harness_failures.append(f"canonical replay {rp}: {res['harness'][-500:]}")
+            if rep.get('master_seed', master_seed) != master_seed and getattr(check, 'POOL_DEPENDS_ON_SEED', True):
+                # the case names pool documents by index and the pool is drawn from VERIF_SEED: under another seed
+                # the file is replayed only through `--replay` (which sets up the pool it was captured with)
+                res = {'violations': []}
+                reproduced = 'other-seed'
+            else:
+                res = execute_case(check, rep['case'])
+                if res.get('harness'):
+                    batch.harness_failures.append(f"canonical replay {rp}: {res['harness'][-500:]}")
             sigs = [v['signature'] for v in res.get('violations', [])]
-            reproduced = any(entry_matches(e, s) for s in sigs)
+            if reproduced != 'other-seed':
+                reproduced = any(entry_matches(e, s) for s in sigs)
             if e['status'] == 'fixed' and sigs:
-                # a fixed entry suppresses nothing: any violation of its replay is reported
+                # a fixed entry suppresses nothing: what its replay shows is reported (unless it is another, listed,
+                # open finding that the same input happens to exhibit)
                 for v in res['violations']:
-                    unlisted.append((-1, rep.get('run_seed', 0), v, rep['case']))
+                    u, _ = classify(check.PROP, [(-1, 0, v)])
+                    for item in u:
+                        unlisted.append((-1, rep.get('run_seed', 0), v, rep['case']))
             elif e['status'] == 'open':
                 for v in res['violations']:
                     if not entry_matches(e, v['signature']):
@@ -536,7 +546,8 @@ def run_check(check, tier, master_seed, runs=None, budget_s=None, quiet=False):
                             unlisted.append((-1, rep.get('run_seed', 0), v, rep['case']))
         if e['status'] == 'open':
             n = len(listed.get(e['key'], []))
-            state = {True: 'reproduced', False: 'NOT reproduced', None: 'no canonical replay'}[reproduced]
+            state = {True: 'reproduced', False: 'NOT reproduced', None: 'no canonical replay',
+                     'other-seed': 'captured under another VERIF_SEED, run it with --replay'}[reproduced]
             known_lines.append(f"KNOWN-FINDING: property={check.PROP} {e['key']} {e['what']} "
                                f"[canonical replay {state}; {n} matching runs in this batch]")
 
